@@ -34,6 +34,10 @@ func (t *Dense) {{.Name}}({{if ge .NumArgs 1 -}} val1 interface{} {{end}} {{if g
 			err = errors.Errorf("Can only do {{.Name}} with floating point types")
 			return
 	}
+	{{else}}
+	if err = typeclassCheck(t.t, ordTypes); err != nil {
+		return errors.Wrapf(err, unsupportedDtype, t.t, "{{.Name}}")
+	}
 	{{end}}
 	
 	if !t.IsMasked() {
@@ -80,6 +84,8 @@ func (t *Dense) {{.Name}}({{if ge .NumArgs 1 -}} val1 interface{} {{end}} {{if g
     {{end}}
     {{end}}
 	{{end}}
+	default:
+		return errors.Errorf(unsupportedDtype, t.t, "{{$name}}")
 }
 return nil
 }
